@@ -336,6 +336,15 @@ func facets(c *wl.Crit, spec map[string]string, sameTs bool, rows []map[string]*
 			set["int-beyond-2^53"] = true
 		}
 		if spec[x.Tag] == "entitytag" {
+			vals := x.Val.GetStrArray().GetValue()
+			if sv := x.Val.GetStr(); sv != nil {
+				vals = append(vals, sv.GetValue())
+			}
+			for _, v := range vals {
+				if strings.ContainsAny(v, "|\\") {
+					set["entity-value-with-delimiter"] = true // the series-key delimiter / escape character in an entity constant
+				}
+			}
 			count[x.Tag]++
 			if inOr {
 				set["entity-under-or"] = true
